@@ -10,6 +10,18 @@ import RaftLogModel.Proofs.ReplaySys
 import RaftLogModel.Proofs.Recover
 namespace RaftLog
 
+/-! ### `syncAll` leaves ids and bytes alone (D15) -/
+
+theorem Fs.ids_syncAll (fs : Fs) (ids : List Nat) : Fs.ids (fs.syncAll ids) = Fs.ids fs := by
+  induction ids generalizing fs with
+  | nil => rfl
+  | cons id ids ih => rw [Fs.syncAll_cons, ih, Fs.ids_sync]
+
+theorem fdata_syncAll (fs : Fs) (ids : List Nat) (i : Nat) : fdata (fs.syncAll ids) i = fdata fs i := by
+  induction ids generalizing fs with
+  | nil => rfl
+  | cons id ids ih => rw [Fs.syncAll_cons, ih, fdata_sync]
+
 /-! ### `smApply` / `replay` from the cache-free runs -/
 
 theorem smApply_of_runs (s : Store) (r : Record) (chunk : Nat) (seg : Seg) {st1 : RState} {l1 : Log}
@@ -114,7 +126,7 @@ theorem loads_repC (cfg : Cfg) : ∀ (jl : List (Closed × List Record)) (a : Op
     -- the next accumulator
     have hst1 : (a.loaded c.id rs sm2).sm.st = st1 := k1
     have hl1 : (a.loaded c.id rs sm2).sm.log = l1 := k2
-    have hfs1 : (a.loaded c.id rs sm2).fs = a.fs := rfl
+    have hfs1 : (a.loaded c.id rs sm2).fs = a.fs.sync c.id := rfl
     have hcl1 : (a.loaded c.id rs sm2).sm.closed = a.sm.closed ++ [c] := by
       simp only [OpenAcc.loaded, k3.closed, OpenAcc.pre, hoffs, k1, ← g3]
     have hgap1 : ∀ q, rest.head? = some q → gapCheck (a.loaded c.id rs sm2) q.1.id = false := by
@@ -130,7 +142,11 @@ theorem loads_repC (cfg : Cfg) : ∀ (jl : List (Closed × List Record)) (a : Op
         exact hch.1
     obtain ⟨a', m1, m2, m3, m4, m5, m6, m7, m8, m9⟩ :=
       ih (a.loaded c.id rs sm2) st' l' (by rw [hst1, hl1]; exact g5)
-        (fun q hq => by rw [hfs1]; exact hfiles q (List.mem_cons_of_mem _ hq))
+        (fun q hq => by
+          rw [hfs1]
+          obtain ⟨f0, q1, q2, q3⟩ := hfiles q (List.mem_cons_of_mem _ hq)
+          obtain ⟨f', r1, r2, _⟩ := Fs.find_sync_some c.id q1
+          exact ⟨f', r1, r2.trans q2, q3⟩)
         (by simp only [List.map_cons] at hch; exact hch.tail) hgap1
     refine ⟨a', Loads.cons hg hf hd hwf hne hrep m1, m2, m3, ?_, ?_, ?_, ?_, ?_, ?_⟩
     · rw [m4, hcl1]; simp
@@ -202,15 +218,16 @@ theorem RInv.load_data {s : Store} {fs : Fs} {w : Worker} {r : RefLog}
   rfl
 
 /-- The end of `openStore` when the loop loaded `closed ++ [lastC]` without
-truncation: the last chunk is reused as the open chunk. -/
-theorem openStore_of_loads (cfg : Cfg) {fs : Fs} {a' : OpenAcc} {closed : List Closed}
-    {lastC : Closed}
+truncation: the last chunk is reused as the open chunk. (D15: the file system and the
+events are those of the loop, `fs'`/`evs`; old: `fs`/`[]`.) -/
+theorem openStore_of_loads (cfg : Cfg) {fs fs' : Fs} {evs : List Ev} {a' : OpenAcc}
+    {closed : List Closed} {lastC : Closed}
     (hloop : openLoop cfg fs.linkedIds { sm := emptyStore cfg, fs := fs } = (.ok a', a'))
     (hcl : a'.sm.closed = closed ++ [lastC]) (hlt : a'.lastTruncated = false)
-    (hfs' : a'.fs = fs) (hevs' : a'.evs = []) :
+    (hfs' : a'.fs = fs') (hevs' : a'.evs = evs) :
     openStore cfg fs =
       (.ok ({ a'.sm with closed := closed, openOffsets := lastC.offsets, pending := [] },
-        { files := [⟨lastC.id, prevLastOf closed⟩] }), fs, []) := by
+        { files := [⟨lastC.id, prevLastOf closed⟩] }), fs', evs) := by
   unfold openStore
   simp only [hloop]
   have hre : (!a'.sm.closed.isEmpty && !a'.lastTruncated) = true := by
@@ -225,12 +242,13 @@ theorem openStore_of_loads (cfg : Cfg) {fs : Fs} {a' : OpenAcc} {closed : List C
 
 /-- **`open` on a clean directory of a replayable store.** Nothing in flight,
 nothing pending, the linked files are exactly the live chunks: `openStore`
-returns ok, touches no file, and the store it returns has the same state, index
+returns ok, only syncs the live chunk files (D15), and the store it returns has the same state, index
 map, chunk table and an empty pending buffer and removal list. -/
 theorem openStore_of_rep (cfg : Cfg) {s : Store} {fs : Fs} {w : Worker} {r : RefLog}
     (h : RInv s fs w r) (hinf : ∀ id, w.inflight id = []) (hp : s.pending = [])
     (hlinked : fs.linkedIds = s.chunkIds) :
-    ∃ s' , openStore cfg fs = (.ok (s', { files := [⟨s.openId, prevLastOf s.closed⟩] }), fs, []) ∧
+    ∃ s' , openStore cfg fs = (.ok (s', { files := [⟨s.openId, prevLastOf s.closed⟩] }),
+        fs.syncAll s.chunkIds, syncEvs s.chunkIds) ∧
       s'.st = s.st ∧ s'.log = s.log ∧ s'.closed = s.closed ∧ s'.openOffsets = s.openOffsets ∧
       s'.pending = [] ∧ s'.removed = [] ∧ s'.cfg = cfg ∧ s'.cache.maxItems = cfg.cacheItems ∧
       s'.cache.capacity = cfg.cacheCap := by
@@ -239,6 +257,8 @@ theorem openStore_of_rep (cfg : Cfg) {s : Store} {fs : Fs} {w : Worker} {r : Ref
     loads_repC cfg (jc ++ [(⟨s.openOffsets, s.st⟩, jo)]) { sm := emptyStore cfg, fs := fs } s.st s.log
       hall hfiles (by rw [hmapoffs]; exact h.j.chained) (fun p _ => rfl)
   obtain ⟨hfs', hevs'⟩ := m1.fs_evs
+  rw [hmapids] at hfs' hevs'
+  have hevs' : a'.evs = syncEvs s.chunkIds := by rw [hevs']; rfl
   have hloop : openLoop cfg fs.linkedIds { sm := emptyStore cfg, fs := fs } = (.ok a', a') := by
     rw [hlinked, ← hmapids]
     have := m1.openLoop_append []
